@@ -22,6 +22,11 @@ def entries():
     for p in sorted(glob.glob(os.path.join(HERE, 'harmless', '*.diff'))):
         prop, nm = os.path.basename(p)[:-5].split('__', 1)
         out.append(dict(prop=prop, name='harmless/' + nm, kind='patch', patch=os.path.relpath(p, ROOT), expect='held'))
+    # semantics-preserving rewrites produced independently (fresh sub-agents given only the property record): the check must not raise an
+    # alarm -- 'held' or 'undecided' are both acceptable outcomes (expect='no-alarm'), a VIOLATION is a false alarm
+    for p in sorted(glob.glob(os.path.join(HERE, 'harmless_indep', '*.diff'))):
+        prop, nm = os.path.basename(p)[:-5].split('__', 1)
+        out.append(dict(prop=prop, name='harmless_indep/' + nm, kind='patch', patch=os.path.relpath(p, ROOT), expect='no-alarm'))
     R = lambda prop, name, file, pat, rep, expect, only=None, count=1: out.append(
         dict(prop=prop, name=name, kind='regex', file=file, pat=pat, rep=rep, expect=expect, only=only, count=count))
     # --- breaking edits
